@@ -257,6 +257,11 @@ def run(ctx):
     # 5. bool
     bools = set(exhaustive(b"yesnoY ", 4)) | {b"yes\n", b"no\x00", b"true", b"false", b"1", b"0", b"yess", b"yes", b"no", b"", b"YES", b"No"}
     run_strings(ctx, "bool", sorted(bools), kinds=("bool",))
+    # >>> a_c11 (wave 4): spec functions / aligned slices / public surface, see props/C11_more.py
+    import sys
+    from props import C11_more
+    C11_more.run_more(ctx, sys.modules[__name__])
+    # <<< a_c11
 
 
 def search(ctx):
